@@ -112,6 +112,17 @@ CLAIMED = {
         note="Assumed: element tables have the documented columns; zero-sequence line parameters come together; _set_entries / "
              "pd.DataFrame(entries) write the dict they receive. Not decided: fuse types, parameter_from_std_type, the calculation "
              "reading the table (C02)."),
+    "C24": dict(
+        text="Relational proof on the real create functions: the single call is run for the generic element of a batch of any size, the "
+             "batch call for the whole batch, and the dicts handed to the element table are compared column by column (equal, or "
+             "absent/NaN in both) for create_transformer3w_from_parameters / create_transformers3w_from_parameters (all parameters "
+             "incl. the tap_pos default), create_transformer3w / create_transformers3w, create_transformer / create_transformers and "
+             "create_line / create_lines (all values taken from a standard type with symbolic values and parameter presence). The "
+             "other create pairs and the rejection behaviour are a bounded stand-in (native runs on fixed vectors), labelled bounded. "
+             "create_transformers dropping the tap changer and shift of the type is the recorded known finding.",
+        note="Assumed: _set_entries / _set_multiple_entries write the dict they get; the optional-column helpers write a value iff it is "
+             "not NaN/None; a NaN argument of a single call is numpy's nan object. Not decided deductively: bus/load/sgen/gen/storage/"
+             "shunt/ward/switch/impedance/cost pairs, duplicate-index and missing-bus checks (bounded stand-in only)."),
 }
 
 NOT_APPLICABLE = {
